@@ -361,6 +361,36 @@ func Extreme(g func(*rand.Rand) string) func(*rand.Rand) string {
 	}
 }
 
+// Wild wraps a generator: in one string of twenty a digit run (not the first
+// one) is replaced by a wildcard character, which may leave numbers, a
+// prerelease or build metadata behind it ("1.x.3", "1.*-rc", "2.X+b").
+func Wild(g func(*rand.Rand) string) func(*rand.Rand) string {
+	return func(r *rand.Rand) string {
+		s := g(r)
+		if r.Intn(20) != 0 {
+			return s
+		}
+		var runs [][2]int
+		for i := 0; i < len(s) && s[i] != '-' && s[i] != '+'; {
+			if s[i] < '0' || s[i] > '9' {
+				i++
+				continue
+			}
+			j := i
+			for j < len(s) && s[j] >= '0' && s[j] <= '9' {
+				j++
+			}
+			runs = append(runs, [2]int{i, j})
+			i = j
+		}
+		if len(runs) < 2 {
+			return s + "." + Pick(r, "x", "*")
+		}
+		x := runs[1+r.Intn(len(runs)-1)]
+		return s[:x[0]] + Pick(r, "x", "*", "X") + s[x[1]:]
+	}
+}
+
 // ExtremeFamilies draws about n distinct accepted strings in families: one
 // generated string, one of its digit runs, and that run replaced by each of
 // 0, 1 and every number in extremes. Members of a family differ in exactly
